@@ -121,6 +121,12 @@ pub trait Property: Sync + Send + 'static {
     fn raw_target(&self) -> Option<(&'static str, fn(&[u8]) -> Outcome)> {
         None
     }
+    /// JSON pointers to the operation/event sequences of a serialised case: the places where the
+    /// mutator of the generic coverage-guided target may insert, delete and replace elements.
+    /// Each with the longest sequence the mutator may build (the thorough tier's bound).
+    fn fuzz_sequences(&self) -> Vec<(&'static str, usize)> {
+        vec![]
+    }
 }
 
 fn judge_raw(known_keys: &BTreeSet<String>, f: fn(&[u8]) -> Outcome, data: &[u8]) -> Result<(), String> {
@@ -220,8 +226,9 @@ pub struct RunArgs {
     pub tier: Tier,
     pub seed: u64,
     pub replay: Option<String>,
-    /// A saved input of the generic coverage-guided target (bytes that drive the strategy).
-    pub replay_case_bytes: Option<String>,
+    /// A failing input of the generic coverage-guided target (a serialised case): reduce it,
+    /// write the replay file, confirm.
+    pub shrink_case: Option<String>,
     /// Write a starting corpus of this many recorded inputs into the directory and exit.
     pub emit_corpus: Option<(String, usize)>,
     pub workers: usize,
@@ -328,21 +335,26 @@ pub fn run_property<P: Property>(prop: P, args: RunArgs) -> i32 {
 
     if let Some((dir, n)) = &args.emit_corpus {
         let _ = std::fs::create_dir_all(dir);
-        let corpus = recorded_corpus(&*prop, args.seed, *n);
+        let corpus = fresh_corpus(&*prop, args.seed, *n);
         for (k, c) in corpus.iter().enumerate() {
-            std::fs::write(std::path::Path::new(dir).join(format!("rec-{:04}", k)), c).unwrap();
+            std::fs::write(std::path::Path::new(dir).join(format!("gen-{:04}.json", k)), c).unwrap();
         }
-        say!("wrote {} recorded inputs to {}", corpus.len(), dir);
+        say!("wrote {} generated cases to {}", corpus.len(), dir);
         return 0;
     }
-    if let Some(path) = &args.replay_case_bytes {
-        return replay_case_bytes(prop.clone(), known_keys.clone(), path, args.seed);
+    if let Some(path) = &args.shrink_case {
+        return shrink_case_file(prop.clone(), known_keys.clone(), path, args.seed);
     }
 
     // ---- replay mode -------------------------------------------------------------------------
     if let Some(path) = &args.replay {
         let bytes = std::fs::read(path).expect("cannot read replay file");
-        let parsed: Option<ReplayFile<P::Case>> = std::str::from_utf8(&bytes).ok().and_then(|t| serde_json::from_str(t).ok());
+        let parsed: Option<ReplayFile<P::Case>> = std::str::from_utf8(&bytes).ok().and_then(|t| {
+            serde_json::from_str::<ReplayFile<P::Case>>(t).ok().or_else(|| {
+                // a bare serialised case (input of the generic coverage-guided target)
+                serde_json::from_str::<P::Case>(t).ok().map(|case| ReplayFile { property: id.to_string(), seed: args.seed, note: String::new(), case })
+            })
+        });
         let rf = match parsed {
             Some(rf) => rf,
             None => {
@@ -470,6 +482,62 @@ pub fn run_property<P: Property>(prop: P, args: RunArgs) -> i32 {
                     break;
                 }
             }
+        }
+    }
+
+    // distilled corpus of the generic coverage-guided target (serialised cases kept because they
+    // reached code no smaller case of an earlier campaign reached)
+    let mut distilled_replayed = 0u64;
+    if first_violation.is_none() {
+        let mut files: Vec<std::path::PathBuf> = std::fs::read_dir(root.join("fuzz").join("corpus_min").join(id))
+            .map(|d| d.filter_map(|e| e.ok()).map(|e| e.path()).filter(|p| p.is_file()).collect())
+            .unwrap_or_default();
+        files.sort();
+        let chunks: Vec<Vec<std::path::PathBuf>> = {
+            let w = args.workers.max(1);
+            let mut c = vec![vec![]; w];
+            for (i, f) in files.into_iter().enumerate() {
+                c[i % w].push(f);
+            }
+            c
+        };
+        let mut handles = vec![];
+        for chunk in chunks {
+            let prop2 = prop.clone();
+            let keys = known_keys.clone();
+            handles.push(spawn_big(move || {
+                crate::sut::install_panic_hook();
+                let mut n = 0u64;
+                let mut checks = 0u64;
+                let mut bad: Option<(std::path::PathBuf, String)> = None;
+                for p in chunk {
+                    let data = std::fs::read(&p).unwrap_or_default();
+                    if let Some(case) = parse_case::<P::Case>(&data) {
+                        n += 1;
+                        let (out, res) = judge(&*prop2, &keys, &case);
+                        checks += out.checks;
+                        if let Err(m) = res {
+                            bad = Some((p, m));
+                            break;
+                        }
+                    }
+                }
+                (n, checks, bad)
+            }));
+        }
+        let mut bads = vec![];
+        for h in handles {
+            let (n, checks, bad) = h.join().unwrap();
+            distilled_replayed += n;
+            stats.checks += checks;
+            if let Some(b) = bad {
+                bads.push(b);
+            }
+        }
+        bads.sort();
+        if let Some((p, m)) = bads.into_iter().next() {
+            say!("distilled corpus case {}: {}", p.display(), m);
+            first_violation = Some((p.display().to_string(), m));
         }
     }
 
@@ -660,7 +728,7 @@ pub fn run_property<P: Property>(prop: P, args: RunArgs) -> i32 {
         &samples_stats,
         violations,
         wall,
-        serde_json::json!({"regressions_replayed": regressions_run, "saved_fuzz_inputs_replayed": raw_replayed, "workers": workers}),
+        serde_json::json!({"regressions_replayed": regressions_run, "saved_fuzz_inputs_replayed": raw_replayed, "distilled_corpus_cases_replayed": distilled_replayed, "workers": workers}),
     );
 
     for (p, k, text) in &kf.known {
@@ -703,50 +771,60 @@ pub fn run_property<P: Property>(prop: P, args: RunArgs) -> i32 {
 }
 
 // ---------------------------------------------------------------------------------------------
-// Coverage-guided mode for every property: the fuzzer's bytes are the random source of the
-// property's own strategy (proptest's PassThrough RNG), so every input decodes to a well-formed
-// case of the same domain the property-based tier draws from, and libFuzzer's coverage feedback
-// over the canister code steers which cases are kept and mutated.
+// Coverage-guided mode for every property: structure-aware mutation of serialised cases.
+//
+// proptest's own byte-driven RNG (PassThrough) cannot be used for this: every `prop_oneof!`
+// forks the RNG for the alternatives before the chosen one and a fork halves the remaining
+// input, and rand's uniform sampling loops forever on an exhausted (all-zero) input. Instead
+// the fuzzer's inputs are the JSON form of a case (the same form as a replay file's `case`),
+// and a custom mutator edits them only with pieces that the property's own strategy produced:
+// elements of the operation/event sequence are replaced, inserted, duplicated, swapped or
+// deleted, top-level fields are replaced, always taking new material from a freshly generated
+// donor case (ChaCha seeded by the fuzzer's mutation seed) or from another corpus entry
+// (crossover). Every input therefore stays inside the domain the property-based tier draws
+// from, while libFuzzer's coverage feedback over the canister code decides which are kept.
 // ---------------------------------------------------------------------------------------------
 
-fn passthrough_runner(data: &[u8]) -> TestRunner {
-    let config = Config {
-        cases: 1,
-        failure_persistence: None,
-        max_global_rejects: 100_000,
-        ..Config::default()
-    };
-    TestRunner::new_with_rng(config, TestRng::from_seed(RngAlgorithm::PassThrough, data))
-}
-
-/// The case a byte string decodes to (None: the strategy rejected too often).
-pub fn case_from_bytes<C: std::fmt::Debug>(strat: &BoxedStrategy<C>, data: &[u8]) -> Option<C> {
+pub fn fresh_case<C: std::fmt::Debug>(strat: &BoxedStrategy<C>, seed: u64, salt: &str) -> Option<C> {
     use proptest::strategy::{Strategy, ValueTree};
-    let mut runner = passthrough_runner(data);
+    let config = Config { cases: 1, failure_persistence: None, ..Config::default() };
+    let rng = TestRng::from_seed(RngAlgorithm::ChaCha, &seed_bytes(seed, 0, salt));
+    let mut runner = TestRunner::new_with_rng(config, rng);
     strat.new_tree(&mut runner).ok().map(|t| t.current())
 }
 
-/// `n` byte strings that decode to cases drawn like the property-based tier draws them
-/// (proptest's Recorder RNG): the starting corpus of a campaign.
-pub fn recorded_corpus<P: Property>(prop: &P, seed: u64, n: usize) -> Vec<Vec<u8>> {
-    use proptest::strategy::Strategy;
-    let strat = prop.strategy(Tier::Quick);
-    let mut out = vec![];
-    for k in 0..n {
-        let config = Config { cases: 1, failure_persistence: None, ..Config::default() };
-        let rng = TestRng::from_seed(RngAlgorithm::Recorder, &seed_bytes(seed, k as u64, prop.id()));
-        let mut runner = TestRunner::new_with_rng(config, rng);
-        if strat.new_tree(&mut runner).is_ok() {
-            out.push(runner.bytes_used());
+struct Xs(u64);
+impl Xs {
+    fn next(&mut self) -> u64 {
+        let mut x = self.0;
+        x ^= x >> 12;
+        x ^= x << 25;
+        x ^= x >> 27;
+        self.0 = x;
+        x.wrapping_mul(0x2545F4914F6CDD1D)
+    }
+    fn below(&mut self, n: usize) -> usize {
+        if n == 0 {
+            0
+        } else {
+            ((self.next() >> 11) % n as u64) as usize
         }
     }
-    out
 }
 
 pub struct FuzzCtx<P: Property> {
     prop: P,
     strat: BoxedStrategy<P::Case>,
     keys: BTreeSet<String>,
+    seqs: Vec<(&'static str, usize)>,
+}
+
+fn parse_case<C: DeserializeOwned>(data: &[u8]) -> Option<C> {
+    let text = std::str::from_utf8(data).ok()?;
+    if let Ok(rf) = serde_json::from_str::<ReplayFile<C>>(text) {
+        return Some(rf.case);
+    }
+    serde_json::from_str::<C>(text).ok()
 }
 
 impl<P: Property> FuzzCtx<P> {
@@ -754,58 +832,240 @@ impl<P: Property> FuzzCtx<P> {
         let kf = load_known_findings();
         let keys = kf.known.iter().filter(|(p, _, _)| p == prop.id()).map(|(_, k, _)| k.clone()).collect();
         let strat = prop.strategy(Tier::Quick);
-        FuzzCtx { prop, strat, keys }
+        let seqs = prop.fuzz_sequences();
+        FuzzCtx { prop, strat, keys, seqs }
     }
-    /// Runs the case `data` decodes to. Some(message) iff it violates the property (beyond the
-    /// listed known findings).
+
+    /// Runs the case the input holds. Some(message) iff it violates the property (beyond the
+    /// listed known findings); inputs that are not a serialised case are ignored.
     pub fn one(&self, data: &[u8]) -> Option<String> {
-        let case = case_from_bytes(&self.strat, data)?;
+        let case: P::Case = parse_case(data)?;
         judge(&self.prop, &self.keys, &case).1.err()
     }
-}
 
-/// Replay of a saved input of the generic coverage-guided target: decode, shrink with the
-/// library's own value tree, write the JSON replay file, confirm outside the library.
-fn replay_case_bytes<P: Property>(prop: Arc<P>, known_keys: BTreeSet<String>, path: &str, seed: u64) -> i32 {
-    use proptest::strategy::{Strategy, ValueTree};
-    let id = prop.id();
-    let bytes = std::fs::read(path).expect("cannot read replay file");
-    let prop2 = prop.clone();
-    let keys = known_keys.clone();
-    let res: Option<(P::Case, String)> = spawn_big(move || {
-        crate::sut::install_panic_hook();
-        let strat = prop2.strategy(Tier::Quick);
-        let mut runner = passthrough_runner(&bytes);
-        let mut tree = strat.new_tree(&mut runner).ok()?;
-        let first = tree.current();
-        let mut best = match judge(&*prop2, &keys, &first).1 {
-            Ok(()) => return None,
-            Err(m) => (first, m),
+    fn donor(&self, rng: &mut Xs) -> Option<serde_json::Value> {
+        let c = fresh_case(&self.strat, rng.next(), self.prop.id())?;
+        serde_json::to_value(&c).ok()
+    }
+
+    fn finish(&self, v: serde_json::Value, fallback: &[u8], max_size: usize) -> Vec<u8> {
+        // only well-formed cases leave the mutator
+        if serde_json::from_value::<P::Case>(v.clone()).is_ok() {
+            let out = serde_json::to_vec(&v).unwrap();
+            if out.len() <= max_size {
+                return out;
+            }
+        }
+        fallback.to_vec()
+    }
+
+    pub fn mutate(&self, data: &[u8], seed: u32, max_size: usize) -> Vec<u8> {
+        let mut rng = Xs((seed as u64) << 17 | 0x9E37_79B9_7F4A_7C15);
+        rng.next();
+        let cur: Option<serde_json::Value> = parse_case::<P::Case>(data).and_then(|c| serde_json::to_value(&c).ok());
+        let mut v = match cur {
+            Some(v) => v,
+            None => {
+                // not a case (e.g. the empty input): start from a fresh one
+                return match self.donor(&mut rng) {
+                    Some(d) => self.finish(d, data, max_size),
+                    None => data.to_vec(),
+                };
+            }
         };
-        let mut iters = 0u32;
-        if tree.simplify() {
-            loop {
-                iters += 1;
-                if iters > prop2.max_shrink_iters() {
-                    break;
-                }
-                let cur = tree.current();
-                match judge(&*prop2, &keys, &cur).1 {
-                    Err(m) => {
-                        best = (cur, m);
-                        if !tree.simplify() {
-                            break;
-                        }
-                    }
-                    Ok(()) => {
-                        if !tree.complicate() {
-                            break;
-                        }
+        let edits = 1 + rng.below(3);
+        for _ in 0..edits {
+            let paths: Vec<(&'static str, usize)> = self.seqs.iter().copied().filter(|(p, _)| v.pointer(p).map(|a| a.is_array()).unwrap_or(false)).collect();
+            // a donor that has the same shape (same enum variant) if one turns up in a few draws
+            let mut donor = None;
+            for _ in 0..6 {
+                if let Some(d) = self.donor(&mut rng) {
+                    let ok = paths.is_empty() || paths.iter().any(|(p, _)| d.pointer(p).map(|a| a.is_array()).unwrap_or(false));
+                    let stop = ok;
+                    donor = Some(d);
+                    if stop {
+                        break;
                     }
                 }
             }
+            let donor = match donor {
+                Some(d) => d,
+                None => break,
+            };
+            if paths.is_empty() || rng.below(40) == 0 {
+                v = donor;
+                continue;
+            }
+            let (p, cap) = paths[rng.below(paths.len())];
+            let dseq: Vec<serde_json::Value> = donor.pointer(p).and_then(|a| a.as_array()).cloned().unwrap_or_default();
+            let choice = rng.below(12);
+            if choice == 11 {
+                // replace one sibling field of the sequence (configuration, budgets, ...)
+                let (parent, key) = match p.rfind('/') {
+                    Some(i) => (&p[..i], &p[i + 1..]),
+                    None => continue,
+                };
+                let dobj = donor.pointer(parent).and_then(|o| o.as_object()).cloned();
+                if let (Some(obj), Some(dobj)) = (v.pointer_mut(parent).and_then(|o| o.as_object_mut()), dobj) {
+                    let ks: Vec<String> = obj.keys().filter(|k| k.as_str() != key && dobj.contains_key(*k)).cloned().collect();
+                    if !ks.is_empty() {
+                        let k = &ks[rng.below(ks.len())];
+                        obj.insert(k.clone(), dobj[k].clone());
+                    }
+                }
+                continue;
+            }
+            let seq = match v.pointer_mut(p).and_then(|a| a.as_array_mut()) {
+                Some(s) => s,
+                None => continue,
+            };
+            let n = seq.len();
+            match choice {
+                0..=2 if !dseq.is_empty() && n > 0 => {
+                    let i = rng.below(n);
+                    seq[i] = dseq[rng.below(dseq.len())].clone();
+                }
+                3..=5 if !dseq.is_empty() && n < cap => {
+                    // insertions favour the end: extend a history that reached something new
+                    let i = if rng.below(2) == 0 { n } else { rng.below(n + 1) };
+                    seq.insert(i, dseq[rng.below(dseq.len())].clone());
+                }
+                6 if n > 1 => {
+                    seq.remove(rng.below(n));
+                }
+                7 if n > 0 && n < cap => {
+                    let e = seq[rng.below(n)].clone();
+                    seq.insert(rng.below(n + 1), e);
+                }
+                8 if n > 1 => {
+                    let (a, b) = (rng.below(n), rng.below(n));
+                    seq.swap(a, b);
+                }
+                9 if n > 1 && !dseq.is_empty() => {
+                    let keep = 1 + rng.below(n - 1);
+                    seq.truncate(keep);
+                    let add = 1 + rng.below(4);
+                    for _ in 0..add {
+                        if seq.len() < cap {
+                            seq.push(dseq[rng.below(dseq.len())].clone());
+                        }
+                    }
+                }
+                10 if !dseq.is_empty() => {
+                    let add = 1 + rng.below(4);
+                    for _ in 0..add {
+                        if seq.len() < cap {
+                            seq.push(dseq[rng.below(dseq.len())].clone());
+                        }
+                    }
+                }
+                _ => {}
+            }
         }
-        Some(best)
+        self.finish(v, data, max_size)
+    }
+
+    /// Head and sequence prefix of `a`, sequence suffix of `b`.
+    pub fn crossover(&self, a: &[u8], b: &[u8], seed: u32, max_size: usize) -> Vec<u8> {
+        let mut rng = Xs((seed as u64) << 13 | 0xD1B5_4A32_D192_ED03);
+        rng.next();
+        let va = parse_case::<P::Case>(a).and_then(|c| serde_json::to_value(&c).ok());
+        let vb = parse_case::<P::Case>(b).and_then(|c| serde_json::to_value(&c).ok());
+        let (mut va, vb) = match (va, vb) {
+            (Some(x), Some(y)) => (x, y),
+            _ => return a.to_vec(),
+        };
+        for (p, cap) in self.seqs.iter().copied() {
+            let sb: Vec<serde_json::Value> = match vb.pointer(p).and_then(|x| x.as_array()) {
+                Some(s) => s.clone(),
+                None => continue,
+            };
+            if let Some(sa) = va.pointer_mut(p).and_then(|x| x.as_array_mut()) {
+                if sa.is_empty() || sb.is_empty() {
+                    continue;
+                }
+                let keep = 1 + rng.below(sa.len());
+                let from = rng.below(sb.len());
+                sa.truncate(keep);
+                for e in &sb[from..] {
+                    if sa.len() < cap {
+                        sa.push(e.clone());
+                    }
+                }
+                break;
+            }
+        }
+        self.finish(va, a, max_size)
+    }
+}
+
+/// `n` serialised cases drawn like the property-based tier draws them: the starting corpus.
+pub fn fresh_corpus<P: Property>(prop: &P, seed: u64, n: usize) -> Vec<Vec<u8>> {
+    let strat = prop.strategy(Tier::Quick);
+    (0..n)
+        .filter_map(|k| fresh_case(&strat, seed.wrapping_mul(1_000_003).wrapping_add(k as u64), prop.id()))
+        .map(|c| serde_json::to_vec(&c).unwrap())
+        .collect()
+}
+
+/// Greedy reduction of a failing serialised case found by the coverage-guided target (no value
+/// tree exists for it): chunks of the sequences are deleted while the violation persists. Writes
+/// the JSON replay file and confirms it from a fresh thread.
+fn shrink_case_file<P: Property>(prop: Arc<P>, known_keys: BTreeSet<String>, path: &str, seed: u64) -> i32 {
+    let id = prop.id();
+    let bytes = std::fs::read(path).expect("cannot read replay file");
+    let case: P::Case = match parse_case(&bytes) {
+        Some(c) => c,
+        None => {
+            say!("ERROR: {} is not a serialised case of {}", path, id);
+            return 2;
+        }
+    };
+    let prop2 = prop.clone();
+    let keys = known_keys.clone();
+    let seqs = prop.fuzz_sequences();
+    let res: Option<(P::Case, String)> = spawn_big(move || {
+        crate::sut::install_panic_hook();
+        let mut best_msg = match judge(&*prop2, &keys, &case).1 {
+            Ok(()) => return None,
+            Err(m) => m,
+        };
+        let mut best = serde_json::to_value(&case).unwrap();
+        let mut budget = prop2.max_shrink_iters();
+        for (p, _) in seqs.iter().copied() {
+            let mut chunk = best.pointer(p).and_then(|a| a.as_array()).map(|a| a.len()).unwrap_or(0) / 2;
+            while chunk >= 1 && budget > 0 {
+                let mut i = 0;
+                let mut progressed = false;
+                loop {
+                    let n = best.pointer(p).and_then(|a| a.as_array()).map(|a| a.len()).unwrap_or(0);
+                    if i + chunk > n || n <= 1 || budget == 0 {
+                        break;
+                    }
+                    let mut cand = best.clone();
+                    if let Some(a) = cand.pointer_mut(p).and_then(|a| a.as_array_mut()) {
+                        a.drain(i..i + chunk);
+                        if a.is_empty() {
+                            break;
+                        }
+                    }
+                    budget -= 1;
+                    let ok = serde_json::from_value::<P::Case>(cand.clone()).ok().and_then(|c| judge(&*prop2, &keys, &c).1.err());
+                    match ok {
+                        Some(m) => {
+                            best = cand;
+                            best_msg = m;
+                            progressed = true;
+                        }
+                        None => i += chunk,
+                    }
+                }
+                if !progressed || chunk == 1 {
+                    chunk /= 2;
+                }
+            }
+        }
+        Some((serde_json::from_value(best).unwrap(), best_msg))
     })
     .join()
     .unwrap();
@@ -817,7 +1077,7 @@ fn replay_case_bytes<P: Property>(prop: Arc<P>, known_keys: BTreeSet<String>, pa
         Some((case, msg)) => {
             let dir = verif_root().join("replays");
             let _ = std::fs::create_dir_all(&dir);
-            let out = dir.join(format!("{}-fuzzcase-{:016x}.json", id, fnv(path.as_bytes())));
+            let out = dir.join(format!("{}-fuzzcase-{:016x}.json", id, fnv(&bytes)));
             let rf = ReplayFile { property: id.to_string(), seed, note: msg.clone(), case: case.clone() };
             std::fs::write(&out, serde_json::to_string_pretty(&rf).unwrap()).unwrap();
             let keys = known_keys.clone();
@@ -834,7 +1094,7 @@ fn replay_case_bytes<P: Property>(prop: Arc<P>, known_keys: BTreeSet<String>, pa
                     1
                 }
                 Ok(()) => {
-                    say!("ERROR: shrunk case did not reproduce outside the library (flaky harness?): {}", msg);
+                    say!("ERROR: reduced case did not reproduce from a fresh thread (flaky harness?): {}", msg);
                     2
                 }
             }
